@@ -1,5 +1,5 @@
 (* C11 - the import procedures preserve the node invariant J (any write budget). *)
-From VF.C11 Require Import Model ProofsA ProofsB ProofsC ProofsD ProofsE ProofsF ProofsG.
+From VF.C11 Require Import Model ProofsA ProofsB ProofsC ProofsD ProofsE ProofsF.
 From Coq Require Import Lia ZifyBool ZifyN ZifyNat.
 Local Open Scope N_scope.
 
@@ -14,26 +14,6 @@ Notation Qd := (Qd t).
 Notation J := (J t g).
 
 Definition tb (b : block) : Prop := info t (bid b) = Some b.
-
-Lemma J_die : forall s, J s -> J (die s).
-Proof.
-  intros s [HD [HA HX]]. unfold ProofsB.J, die, alive in *; simpl. split; auto. split.
-  - intros H; congruence.
-  - intros _ Hm. destruct (alive_dec s) as [Ha|Hd]; unfold alive in *.
-    + destruct (HA Ha) as [_ [Q _]]; auto.
-    + apply HX; auto.
-Qed.
-
-Lemma J_write_block_guarded : forall b s, J s -> tb b ->
-  (alive s -> goodish b /\ bnum b <> 0 /\ In (bpar b) (d_hdr (disk_of s)) /\
-              exists p, info t (bpar b) = Some p /\ bnum p + 1 = bnum b) ->
-  J (write_block b s) /\ (alive (write_block b s) -> In (bid b) (d_hdr (disk_of (write_block b s)))).
-Proof.
-  intros b s HJ Hb Hpre. destruct (alive_dec s) as [Ha|Hd].
-  - destruct (Hpre Ha) as [A [B [C D]]].
-    destruct (J_write_block t g b s HJ Hb A B C D) as [H1 [_ [H3 _]]]. auto.
-  - rewrite write_block_wrs, wrs_dead; auto. split; auto. intros Ha. exfalso; apply Ha; auto.
-Qed.
 
 (* ---- insertSidechain ---------------------------------------------------------------------- *)
 
@@ -50,12 +30,12 @@ Proof.
   inversion Ht; subst.
   destruct ((lookback (bnum b) <? first) && _); try discriminate.
   destruct ((bnum prev + 1 =? bnum b) && (bid prev =? bpar b)) eqn:E1; simpl in H; try discriminate.
-  destruct (bhv b =? 2) eqn:E2; try discriminate.
+  destruct ((bhv b =? 1) || (bhv b =? 2)) eqn:E2; try discriminate.
   destruct (bbv b =? 0) eqn:E3; simpl in H; try discriminate.
-  apply andb_true_iff in E1. destruct E1 as [E1 E1']. apply N.eqb_eq in E1, E1', E3. apply N.eqb_neq in E2.
+  apply andb_true_iff in E1. destruct E1 as [E1 E1']. apply N.eqb_eq in E1, E1'.
+  apply orb_false_iff in E2. destruct E2 as [E2 E2'].
   repeat split; auto.
-  unfold goodish, good_block. destruct (bhv b =? 1) eqn:E4; [right; apply N.eqb_eq; auto|left].
-  apply N.eqb_neq in E2. rewrite E2. rewrite (proj2 (N.eqb_eq _ _) E3). reflexivity.
+  unfold goodish, good_block. rewrite E2, E2', E3. reflexivity.
 Qed.
 
 Lemma side_fold_J : forall chain prev s, J s -> tb prev ->
@@ -66,13 +46,13 @@ Proof.
   destruct Hl as [L1 [L2 [L3 [L4 L5]]]].
   apply (IH b); auto.
   - destruct (has_block (disk_of s) (bid b)); auto.
-    apply J_write_block_guarded; auto. intros Ha. repeat split; auto; try lia.
+    apply (J_write_block t g); auto. intros Ha. repeat split; auto; try lia.
     + rewrite <- L2; auto.
     + exists prev. rewrite <- L2. auto.
   - destruct (has_block (disk_of s) (bid b)) eqn:Eh.
-    + intros Ha. destruct HJ as [_ [HA _]]. destruct (HA Ha) as [Hb0 _].
+    + intros Ha. destruct HJ as [[_ [Hb0 _]] _].
       apply Hb0. apply memN_In; auto.
-    + apply J_write_block_guarded; auto. intros Ha. repeat split; auto; try lia.
+    + apply (J_write_block t g); auto. intros Ha. repeat split; auto; try lia.
       * rewrite <- L2; auto.
       * exists prev. rewrite <- L2. auto.
 Qed.
@@ -101,7 +81,7 @@ Proof.
   assert (Ht' : Forall tb (b0 :: ch)).
   { apply Forall_forall. intros x Hx. rewrite Forall_forall in Ht. apply Ht.
     apply (skip_canonical_incl (disk_of s)). rewrite Esk; auto. }
-  destruct (verify_all_side_chain_blocks t (disk_of s) (b0 :: ch)) eqn:Ev; try exact HJ; try (apply J_die; exact HJ).
+  destruct (verify_all_side_chain_blocks t (disk_of s) (b0 :: ch)) eqn:Ev; try exact HJ; try (apply (J_die t g); exact HJ).
   unfold verify_all_side_chain_blocks in Ev.
   destruct (parent_block t (disk_of s) b0) as [p|] eqn:Ep; try discriminate.
   destruct (negb (has_state (disk_of s) (broot p))); try discriminate.
@@ -112,11 +92,11 @@ Proof.
   { apply (side_fold_J (b0 :: ch) p); auto.
     - unfold tb. rewrite P5; auto.
     - intros _. rewrite P5; auto. }
-  destruct (info t (cur s1)) as [c|]; [|apply J_die; auto].
+  destruct (info t (cur s1)) as [c|]; [|apply (J_die t g); auto].
   destruct (bnum (last (b0 :: ch) (mkB 0 0 0 0 [] 0 0)) <=? bnum c); [exact H1|].
-  destruct (collect_side t _ (disk_of s1) _ []) as [[hs anc]|]; [|apply J_die; auto].
+  destruct (collect_side t _ (disk_of s1) _ []) as [[hs anc]|]; [|apply (J_die t g); auto].
   destruct hs as [|h hs]; [exact H1|].
-  destruct (get_blocks t (disk_of s1) _) as [blocks|] eqn:Eg; [|apply J_die; auto].
+  destruct (get_blocks t (disk_of s1) _) as [blocks|] eqn:Eg; [|apply (J_die t g); auto].
   apply Hic; auto. eapply get_blocks_tb; eauto.
 Qed.
 
@@ -201,11 +181,11 @@ Proof.
     apply negb_false_iff in Es, Eb. apply memN_In in Es. apply N.eqb_eq in Eb.
     assert (Hw : J (fst (write_block_with_state t p b s))).
     { apply (J_wbws t g); auto.
-      - left. unfold good_block. apply N.eqb_neq in Hh1, Hh2. rewrite Hh1, Hh2, Eb. reflexivity.
+      - unfold goodish, good_block. apply N.eqb_neq in Hh1, Hh2. rewrite Hh1, Hh2, Eb. reflexivity.
       - exists pp. split; auto. lia. }
     destruct (write_block_with_state t p b s) as [s' e0]. cbn [fst] in Hw.
     destruct e0; try exact Hw. apply IH; auto. }
-  assert (Hfut : J (set_future (bid b :: future s) s)) by (apply J_set_future; auto).
+  assert (Hfut : J (set_future (bid b :: future s) s)) by (apply (J_set_future t g); auto).
   destruct v; cbn [snd fst] in *;
     try (exact HJ);
     try (apply IH; auto; fail);
